@@ -112,7 +112,7 @@ def gen_atomic(r, nthreads=None, nx=None, maxops=3):
     return render({"x": nx}, frame(bodies, pre, post))
 
 
-def gen_sync(r, maxops=4):
+def gen_sync(r, maxops=4, atomics=True):
     """random well-formed program over mutexes, rwlock, condvar-free blocking primitives, cells"""
     nthreads = 2 + r.below(2)
     nm, nl, nc, nx = 1 + r.below(2), r.below(2), 1, 1
@@ -156,10 +156,10 @@ def gen_sync(r, maxops=4):
                 else:
                     ops.append("unwr 0")
                     held_w = False
-            elif k < 90:
+            elif atomics:
                 ops.append(rand_atomic_op(r, nx, vs, allow_fence=False))
-            else:
-                ops.append(rand_atomic_op(r, nx, vs, allow_fence=False))
+            elif held_m:
+                ops.append(f"cwr 0 {vs.fresh('c')}" if r.chance(1, 2) else "crd 0")
         while held_m:
             ops.append(f"unlock {held_m.pop()}")
         if held_r:
@@ -176,11 +176,11 @@ def gen_sync(r, maxops=4):
     return render(cfg, frame(bodies, body(), []))
 
 
-def gen_wait(r):
+def gen_wait(r, channels=True):
     """condvar / notify / park / channel programs (may deadlock: that is intended)"""
     nthreads = 2 + r.below(2)
     vs = ValueSource()
-    kind = r.below(4)
+    kind = r.below(4 if channels else 3)
     bodies = []
     if kind == 0:
         # condvar with a flag cell protected by mutex 0
